@@ -12,6 +12,11 @@ CLAIMED = {
         "Decides, on every CFG path of the current orcparse.c / orcprogram.c / orcutils.c sources, the structural necessary conditions of parser totality: token and instruction appends are dominated by a capacity test, parser->program is non-NULL wherever it is dereferenced (interprocedural, through the directive table), the -1 sentinel of orc_program_add_constant_str is tested before indexing, the error array handed to the NULL-scanning consumer is terminated, every error record carries the parser's line number, and no loop is definitely divergent. It does not prove termination or value-level contents of error records.",
         "Trusted: clang 14 front end + CFG; orc_malloc aborts on OOM (checked structurally); nullness tracks one access path per query. Declined clauses: termination as a theorem, CR/LF line accounting, OOM behaviour.",
         "DESIGN.md §4 C14"),
+    "C05": (
+        "capacity-dominance dataflow (R-CAP) over every library function, code-buffer guard rule, typestate of orc_compiler_compile_program over its CFG with call-kill must-facts, loop-form classifier with definite-divergence and skippable-equality-exit rules (finite value-set evaluation from table initialisers)",
+        "Decides for every function of the library (all eight backends, 1.6k functions) that appends to the API-driven fixed tables (program/compiler instructions, variables, constants, tokens, rule sets, targets) are dominated by a capacity test, that the x86 encoders bound the 64 KiB code buffer, that the compile driver stores the JIT pointer only after the chunk test and a fresh error test, installs a fallback before any error exit and never returns 0 from the error exit, and that no loop is definitely divergent or exits only through an equality that feasible operand values skip. Abort-freedom and general termination are not decided.",
+        "Trusted: clang 14 AST/CFG; arming table tables/c05_rcap.json (which tables are filled by API input, confirmed by replays); may-value sets for the equality-exit rule. Declined: ORC_ASSERT reachability, quantitative time bounds, labels/fixups whose count is fixed by backend skeletons.",
+        "DESIGN.md §4 C05"),
 }
 
 NOT_YET = "check under construction in this round; not claimed until its rules are exact on the current tree"
